@@ -94,6 +94,7 @@ class Kernel(object):
         else:
             self.pct_points = []
         self.pct_low = 0.0
+        self._preempting = False
 
     # ------------------------------------------------------------------ time
     def time(self):
@@ -121,7 +122,7 @@ class Kernel(object):
     # ------------------------------------------------------------------ tasks
     def spawn(self, fn, name, daemon=False, proc=None):
         t = Task(len(self.tasks), name, daemon, proc)
-        if self.policy == "pct":
+        if self.policy in ("pct", "demote"):
             t.prio = 1.0 + self.rng.random()
         self.tasks.append(t)
 
@@ -219,6 +220,13 @@ class Kernel(object):
                 if cur is not None:
                     self.pct_low -= 1.0
                     cur.prio = self.pct_low
+            chosen = max(r, key=lambda t: (t.prio, -t.tid))
+        elif self.policy == "demote":
+            # priorities like PCT, but the change points are the pre-emptions themselves: a pre-empted task drops below
+            # everybody else and the others run until they block ("descheduled for a long time at an arbitrary point")
+            if self._preempting and cur is not None:
+                self.pct_low -= 1.0
+                cur.prio = self.pct_low
             chosen = max(r, key=lambda t: (t.prio, -t.tid))
         else:
             if self.sticky and cur is not None and cur.state == R and self.rng.random() < self.sticky:
@@ -330,7 +338,11 @@ class Kernel(object):
             return
         if self.prng.random() < self.preempt_p:
             self.preempts += 1
-            self._dispatch(me)
+            self._preempting = True
+            try:
+                self._dispatch(me)
+            finally:
+                self._preempting = False
 
     def kill_task(self, t, exc=SimCrash):
         if t.state == D:
